@@ -667,7 +667,15 @@ def c12_corpus(tier, seed):
 
 # ------------------------------------------------------------------ expander and probe
 def build_expander():
-    d = os.path.join(VERIF, 'tools', 'expander')
+    src = os.path.join(VERIF, 'tools', 'expander')
+    d = src
+    if os.path.abspath(REPO) != '/repo':
+        # another repository root (vp run --with-repo): build a copy of the tool crate that points at it
+        d = os.path.join(WORK, 'expander_src')
+        shutil.rmtree(d, ignore_errors=True)
+        shutil.copytree(src, d, ignore=shutil.ignore_patterns('target'))
+        ct = open(os.path.join(d, 'Cargo.toml')).read().replace('path = "/repo/src/lib.rs"', f'path = "{os.path.join(REPO, "src", "lib.rs")}"')
+        open(os.path.join(d, 'Cargo.toml'), 'w').write(ct)
     rc, out = sh(['cargo', 'build', '--release', '--offline', '--target-dir', os.path.join(WORK, 'target-expander')], cwd=d, timeout=1200)
     if rc != 0:
         return None, out[-3000:]
